@@ -73,6 +73,7 @@ type c16Src struct {
 	typ     string // sample type name; "" = a profile without sample types (and without samples)
 	samples []c16KV
 	comment string // distinct per source: the merged profile's Comments list the contributors in merge order
+	drop    string // Profile.DropFrames (end-to-end streams: "", a pattern matching no frame, or a non-RE2 pattern)
 }
 
 type c16Ev struct{ grp, idx int }
@@ -81,6 +82,12 @@ type c16Case struct {
 	srcs, bases []c16Src
 	order       []c16Ev
 	fetch       bool // drive fetchProfiles (base subtraction included) instead of grabSourcesAndBases
+	// end-to-end layer (c16_e2e.go): drive driver.PProf.  srcs/bases are then TABLES of distinct source
+	// names; args[g] lists, by table index, what the command line names (repeats allowed).
+	e2e       int // 0 = off, else c16E2E* (which entry point / output is used)
+	args      [2][]int
+	diffBase  bool // -diff_base instead of -base
+	emptyBase bool // an additional empty -base= value (dropEmpty)
 }
 
 type c16Sym struct{}
@@ -98,6 +105,7 @@ func c16Profile(s c16Src, invalid bool) *profile.Profile {
 	if s.comment != "" {
 		p.Comments = []string{s.comment}
 	}
+	p.DropFrames = s.drop
 	m := &profile.Mapping{ID: 1, Start: 0x1000, Limit: 0x100000, BuildID: "c16build"}
 	p.Mapping = []*profile.Mapping{m}
 	fns := map[string]*profile.Location{}
@@ -168,6 +176,8 @@ type c16Env struct {
 	errs  []string
 	calls map[string]int
 	byPath map[string]string // "/s3" -> address, for the sources served by the local servers
+	notConcurrent string    // end-to-end streams: set when the fetches of the run were not all in flight together
+	lines         []string  // interactive session: what ReadLine hands out
 }
 
 func (e *c16Env) Fetch(src string, duration, timeout time.Duration) (*profile.Profile, string, error) {
@@ -215,7 +225,16 @@ func (e *c16Env) RoundTrip(req *http.Request) (*http.Response, error) {
 }
 
 // plugin.UI
-func (e *c16Env) ReadLine(prompt string) (string, error) { return "", io.EOF }
+func (e *c16Env) ReadLine(prompt string) (string, error) {
+	e.mu.Lock()
+	defer e.mu.Unlock()
+	if len(e.lines) == 0 {
+		return "", io.EOF
+	}
+	l := e.lines[0]
+	e.lines = e.lines[1:]
+	return l, nil
+}
 func (e *c16Env) Print(args ...interface{})              {}
 func (e *c16Env) PrintErr(args ...interface{}) {
 	e.mu.Lock()
@@ -315,6 +334,29 @@ func c16Run(cs c16Case) (obs Term) {
 	go func() {
 		defer close(done)
 		stalls := 0
+		if cs.e2e != 0 {
+			// "fetches them concurrently": every fetch of the run (fewer than a chunk) must be in flight
+			// before the first one is allowed to complete
+			deadline := time.After(400 * time.Millisecond)
+			inflight := 0
+		wait:
+			for _, ev := range cs.order {
+				select {
+				case <-env.gates[addrs[ev.grp][ev.idx]].arrived:
+					inflight++
+				case <-finished:
+					break wait
+				case <-deadline:
+					break wait
+				}
+			}
+			if inflight < len(cs.order) {
+				env.mu.Lock()
+				env.notConcurrent = fmt.Sprintf("not-concurrent: %d of %d fetches in flight together", inflight, len(cs.order))
+				env.mu.Unlock()
+				stalls = 3
+			}
+		}
 		for _, ev := range cs.order {
 			g := env.gates[addrs[ev.grp][ev.idx]]
 			arrived := false
@@ -356,7 +398,9 @@ func c16Run(cs c16Case) (obs Term) {
 				panicked = fmt.Sprint(r)
 			}
 		}()
-		if cs.fetch {
+		if cs.e2e != 0 {
+			p, err = c16RunE2E(env, rt, cs, addrs)
+		} else if cs.fetch {
 			p, err = driver.VerifC16Fetch(addrs[0], addrs[1], false,
 				&plugin.Options{Fetch: env, Sym: c16Sym{}, Obj: c16Obj{}, UI: env, HTTPTransport: rt})
 		} else {
@@ -383,7 +427,7 @@ func c16Run(cs c16Case) (obs Term) {
 			status = "no-src"
 		case m == "failed to fetch any base profiles":
 			status = "no-base"
-		case cs.fetch && (strings.HasPrefix(m, "profiles have empty common sample type list") || strings.HasPrefix(m, "sample types:") || strings.HasPrefix(m, "period type:")):
+		case (cs.fetch || cs.e2e != 0) && (strings.HasPrefix(m, "profiles have empty common sample type list") || strings.HasPrefix(m, "sample types:") || strings.HasPrefix(m, "period type:")):
 			status = "err-diff" // combining the merged sources with the negated merged bases failed
 		default:
 			status = "other:" + m
@@ -401,14 +445,31 @@ func c16Run(cs c16Case) (obs Term) {
 				matched = true
 			}
 		}
+		if !matched && cs.e2e != 0 && (strings.HasPrefix(line, "Generating report in ") || strings.HasPrefix(line, "Serving web UI on ")) {
+			matched = true // the report step's own progress lines
+		}
 		if !matched {
 			tail = append(tail, S(line))
 		}
 	}
 	// a source fetched more than once would be an observable too
 	var multi []string
+	want := map[string]int{}
+	if cs.e2e != 0 {
+		for g := 0; g < 2; g++ {
+			for _, id := range cs.args[g] {
+				want[addrs[g][id]]++
+			}
+		}
+		if env.notConcurrent != "" {
+			multi = append(multi, env.notConcurrent)
+		}
+	}
 	for a, n := range env.calls {
-		if n != 1 {
+		if cs.e2e != 0 && n == want[a] {
+			continue
+		}
+		if n != 1 || cs.e2e != 0 {
 			multi = append(multi, fmt.Sprintf("%s x%d", a, n))
 		}
 	}
@@ -421,7 +482,7 @@ func c16Run(cs c16Case) (obs Term) {
 // (coq/R_C16.v plain_prof) rebuilds the profile from the position.
 func c16IsPlain(s c16Src, i, grp int) bool {
 	q := c16Plain(i, grp, true)
-	if s.typ != q.typ || len(s.samples) != len(q.samples) || s.comment != fmt.Sprintf("c%d:%d", grp, i) {
+	if s.drop != "" || s.typ != q.typ || len(s.samples) != len(q.samples) || s.comment != fmt.Sprintf("c%d:%d", grp, i) {
 		return false
 	}
 	for j := range s.samples {
@@ -448,6 +509,9 @@ func c16SrcTerm(s c16Src) Term {
 	if s.comment != "" {
 		cm = append(cm, s.comment)
 	}
+	if s.drop != "" {
+		return L(ZI(s.kind), S(s.typ), L(kv...), Ss(cm), S(s.drop))
+	}
 	return L(ZI(s.kind), S(s.typ), L(kv...), Ss(cm))
 }
 
@@ -461,6 +525,16 @@ func c16Input(cs c16Case) Term {
 	}
 	for _, e := range cs.order {
 		o = append(o, ZI(e.grp*1000000+e.idx))
+	}
+	if cs.e2e != 0 {
+		flags := 0
+		if cs.diffBase {
+			flags |= 1
+		}
+		if cs.emptyBase {
+			flags |= 2
+		}
+		return L(L(a...), L(b...), L(o...), S("pprof"), L(Zs(c16I64(cs.args[0])), Zs(c16I64(cs.args[1])), ZI(cs.e2e), ZI(flags)))
 	}
 	if cs.fetch {
 		return L(L(a...), L(b...), L(o...), S("fetch"))
@@ -636,6 +710,11 @@ func c16Plain(i int, grp int, ok bool) c16Src {
 
 func runC16(c *Ctx) {
 	os.Setenv("PPROF_BINARY_PATH", "c16-no-such-dir")
+	if cwd, err := os.Getwd(); err == nil { // the web entry point reads its settings file
+		os.MkdirAll(cwd+"/c16_home", 0o755)
+		os.Setenv("XDG_CONFIG_HOME", cwd+"/c16_home")
+		os.Setenv("PPROF_TMPDIR", cwd+"/c16_home")
+	}
 	thorough := c.Tier == "thorough"
 
 	// G1: exhaustive small scope: m = ns+nb sources, every split, every completion order of the m
@@ -857,6 +936,7 @@ func runC16(c *Ctx) {
 		c.c16Emit("fetchprofiles", cs, "gen-fetchprofiles")
 	}
 	c.c16TransportStreams()
+	c.c16E2EStreams()
 	c.c16Flush()
 	c.Extra["controller_stalls"] = c16Stalls
 }
